@@ -179,6 +179,50 @@ def merge_bool(cli: bool, env: bool, fi: int, wi: int) -> bool:
     return got == want and (got == "error" or others_untouched(app, "reload"))
 
 
+SENDFILE_ENV = [None, "yes", "no", "Y", "off"]
+
+
+def merge_sendfile(cli_no: bool, env_no: bool, fi: int, wi: int, ev: int) -> bool:
+    """
+    pre: 0 <= fi <= 9 and 0 <= wi <= 9 and 0 <= ev < len(SENDFILE_ENV)
+    post: __return__
+    """
+    # sendfile: --no-sendfile can only say False; file / framework say anything a bool setting accepts; the SENDFILE
+    # environment variable is the documented fallback "if not set" - below every source that mentions the setting.
+    # The effective value is read through Config.sendfile, which is what Response.can_sendfile() consults.
+    import os
+    fi, wi, ev = pick(fi, 0, 9), pick(wi, 0, 9), pick(ev, 0, len(SENDFILE_ENV) - 1)
+    c = False if cli_no else None
+    e = False if env_no else None
+    saved_env = os.environ.get("SENDFILE")
+    try:
+        if SENDFILE_ENV[ev] is None:
+            os.environ.pop("SENDFILE", None)
+        else:
+            os.environ["SENDFILE"] = SENDFILE_ENV[ev]
+        got, app = run_merge("sendfile", c, e, FILE_BOOL[fi], FILE_BOOL[wi])
+    finally:
+        if saved_env is None:
+            os.environ.pop("SENDFILE", None)
+        else:
+            os.environ["SENDFILE"] = saved_env
+
+    def val(v):
+        if isinstance(v, bool):
+            return v
+        if not isinstance(v, str):
+            raise TypeError
+        s_ = v.lower().strip()
+        if s_ == "true":
+            return True
+        if s_ == "false":
+            return False
+        raise ValueError
+    fallback = True if SENDFILE_ENV[ev] is None else SENDFILE_ENV[ev].lower() in ("y", "1", "yes", "true")
+    want = expected(fallback, [FILE_BOOL[wi], FILE_BOOL[fi], e, c], val)
+    return got == want and (got == "error" or others_untouched(app, "sendfile"))
+
+
 def merge_str(cli: Optional[str], env: Optional[str], filev: Optional[str], fw: Optional[str]) -> bool:
     """
     pre: all(v is None or len(v) <= CASE["n"] for v in (cli, env, filev, fw))
@@ -244,6 +288,64 @@ def merge_int_file(fi: int, wi: int, cli: Optional[int]) -> bool:
         raise TypeError
     want = expected(1, [FILE_INT[wi], FILE_INT[fi], None, cli], val)
     return got == want
+
+
+# ---- reload: every generation is merged from scratch ----------------------------------------------------------------------------
+class App2(Application):
+    """goes through the real BaseApplication.__init__ / do_load_config / reload; only the file reader, chdir and the argument
+    parser are replaced"""
+
+    def __init__(self, cli_ns, env_ns, files):
+        self._cli, self._env, self._files = cli_ns, env_ns, files
+        self.gen = 0
+        Application.__init__(self)
+
+    def init(self, parser, opts, args):
+        return {}
+
+    def chdir(self):
+        pass
+
+    def get_config_from_filename(self, filename):
+        return dict(self._files[self.gen])
+
+
+def reload_fresh(v1: Optional[int], v2: Optional[int], t1: Optional[int], cli: Optional[int]) -> bool:
+    """
+    pre: v1 is None or 1 <= v1 <= 4
+    pre: v2 is None or 1 <= v2 <= 4
+    pre: t1 is None or 1 <= t1 <= 4
+    pre: cli is None or 1 <= cli <= 4
+    post: __return__
+    """
+    # generation 1 of the config file mentions workers = v1 and timeout = t1 (None = not mentioned), generation 2 mentions
+    # workers = v2 only; the command line may give workers.  After reload() nothing of generation 1 is left.
+    cli_ns = ns(workers=cli, config="x.py")
+    env_ns = ns(config=None)
+    f1 = {}
+    if v1 is not None:
+        f1["workers"] = v1
+    if t1 is not None:
+        f1["timeout"] = t1
+    f2 = {} if v2 is None else {"workers": v2}
+    saved = (Config.parser, Config.get_cmd_args_from_env, B.get_default_config_file, B.sys)
+    B.sys = _QUIET_SYS
+    Config.parser = lambda self: FakeParser(cli_ns, env_ns)
+    Config.get_cmd_args_from_env = lambda self: ["--from-env"]
+    B.get_default_config_file = lambda: None
+    try:
+        with _untraced():
+            pass
+        app = App2(cli_ns, env_ns, [f1, f2])
+        w1 = cli if cli is not None else (v1 if v1 is not None else 1)
+        if app.cfg.workers != w1 or app.cfg.timeout != (t1 if t1 is not None else 30):
+            return False
+        app.gen = 1
+        app.reload()
+        w2 = cli if cli is not None else (v2 if v2 is not None else 1)
+        return app.cfg.workers == w2 and app.cfg.timeout == 30 and others_untouched(app, "workers")
+    finally:
+        Config.parser, Config.get_cmd_args_from_env, B.get_default_config_file, B.sys = saved
 
 
 def merge_twin(cli: Optional[int], env: Optional[int], filev: Optional[int], fw: Optional[int], loc: bool) -> bool:
@@ -314,9 +416,15 @@ OBLIGATIONS = [
     Ob("C16.merge_int", "merge_int", timeout=900, bound="workers: each of 4 sources absent or an int in -2..50; config file named by CLI or env args"),
     Ob("C16.merge_int_file", "merge_int_file", timeout=900,
        bound="workers from config file / framework out of {absent, 1, 1.0, 3, '3', '0x10', 2.5, True, 'x', -1} + CLI absent or 0..3"),
+    Ob("C16.reload_fresh", "reload_fresh", timeout=900,
+       bound="real BaseApplication.__init__ + reload(): config file generation 1 (workers, timeout each absent or 1..4) replaced by "
+             "generation 2 (workers absent or 1..4), command-line workers absent or 1..4"),
     Ob("C16.merge_int.twin", "merge_twin", expect="refute", timeout=120),
     Ob("C16.merge_bool", "merge_bool", timeout=900,
        bound="reload: CLI/env flag given or not; file/framework value from {absent, True, False, 'true', 'False', ' TRUE ', 'yes', 1, 0, 1.0}"),
+    Ob("C16.merge_sendfile", "merge_sendfile", timeout=900,
+       bound="sendfile through Config.sendfile: --no-sendfile on CLI / in GUNICORN_CMD_ARGS or not, file / framework from 10 values, "
+             "SENDFILE environment variable unset or one of 4 spellings"),
     Ob("C16.merge_str", "merge_str", cases={"quick": [{"n": 1}], "thorough": [{"n": 2}]}, timeout={"quick": 900, "thorough": 2400},
        bound="proc_name: each of 4 sources absent or an arbitrary string of <=1 (thorough 2) characters"),
     Ob("C16.merge_list", "merge_list", timeout=900, bound="bind: CLI/env lists from 4 shapes, file/framework from 5 shapes (str, list, empty, padded)"),
